@@ -48,6 +48,7 @@ Record config := mkConfig {
   c_providers : list bytes;     (* OAuth2 provider names (lower case) *)
   c_preserve : list bytes;      (* RegisterPreserveFields *)
   c_onetime : bool;             (* the user type implements totp2fa.UserOneTime *)
+  c_default_paths : bool        (* Config.Paths left at authboss.New()'s defaults: every OK / NotOK target is "/" *)
 }.
 
 Definition has_mod (c : config) (m : modname) : bool := existsb (modname_eqb m) (c_mods c).
